@@ -234,7 +234,19 @@ pub fn udp_worker(args: &[String]) -> i32 {
     let n_driver = rng.range(1, 2);
     let mut driver_socks = Vec::new();
     for _ in 0..n_driver {
-        let s = UdpSocket::bind((Ipv4Addr::LOCALHOST, 0)).unwrap();
+        // The kernel may hand the driver the very port that was probed free for an actor a moment
+        // ago (and released for the runtime to bind): the driver would then talk to itself. Such a
+        // socket is kept open until another one is bound, so that the port is not offered again.
+        let mut rejected = Vec::new();
+        let s = loop {
+            let s = UdpSocket::bind((Ipv4Addr::LOCALHOST, 0)).unwrap();
+            if ports.contains(&s.local_addr().unwrap().port()) {
+                rejected.push(s);
+                continue;
+            }
+            break s;
+        };
+        drop(rejected);
         s.set_read_timeout(Some(Duration::from_millis(5))).unwrap();
         driver_socks.push(s);
     }
